@@ -29,8 +29,25 @@ SOURCES = [
 PAIR_REACTIONS = ["jpsi_k0_sigma_p", "lc_pkpi", "jpsi_k0_sigma_p_raw", "jpsi_gamma_pi0_pi0"]
 GAP_REACTIONS = ["chic0_omega_phi", "etac_LLbar"]  # several outer helicity combinations without transition
 FOUR_BODY = ["jpsi_k0_sigma_p_pi0"]  # 2 topologies, 12 permuted ones without name collisions; DPD raises, axis-angle works
-REACTIONS = PAIR_REACTIONS + GAP_REACTIONS + FOUR_BODY
+# the SAME decay (topologies, particles) with different helicity sets of the initial state: a memo keyed on
+# everything but the helicities (round-6 seed against the DPD alignment cache) shows up only in such a pair
+RELATED_PAIRS = [("jpsi_k0_sigma_p", "jpsi_k0_sigma_p_full"), ("jpsi_k0_sigma_p_full", "jpsi_k0_sigma_p")]
+RELATED_ONLY = ["jpsi_k0_sigma_p_full"]
+REACTIONS = PAIR_REACTIONS + GAP_REACTIONS + FOUR_BODY + RELATED_ONLY
 HIST_DYNAMICS = ["create_non_dynamic", "create_relativistic_breit_wigner"]
+# every object with cache_clear reachable from the package on the unchanged tree (found by introspection on every run)
+EXPECTED_MEMOISED = [
+    "ampform._qrules.get_qrules_version", "ampform.dynamics.form_factor._get_indices",
+    "ampform.dynamics.form_factor._get_polynomial_blatt_weisskopf",
+    "ampform.dynamics.kmatrix.NonRelativisticKMatrix._create_matrices",
+    "ampform.dynamics.kmatrix.NonRelativisticPVector._create_matrices",
+    "ampform.dynamics.kmatrix.RelativisticKMatrix._create_matrices",
+    "ampform.dynamics.kmatrix.RelativisticPVector._create_matrices",
+    "ampform.helicity.align.dpd._formulate_aligned_amplitude", "ampform.helicity.decay.assert_three_body_decay",
+    "ampform.helicity.decay.get_decay_product_ids", "ampform.helicity.decay.get_spectator_id",
+    "ampform.helicity.decay.is_opposite_helicity_state", "ampform.helicity.naming.get_boost_chain_suffix",
+    "ampform.sympy._cache._warn_about_unsafe_hash",
+]
 SIZES = {
     "quick": {"histories": 5, "ops": 55, "interleavings": 0, "hashseeds": ["prng"], "scan_seeds": 12, "cover_seeds": 3, "own_process": 2,
               "shrink_budget": 5, "perm_samples": 6},
@@ -222,11 +239,13 @@ def scripted_segments(rng, infos: dict, first_builder: int, stats: dict):
     in one process, A-B-A, so that state keyed too coarsely (not on the reaction) shows up."""
     segments = []
     fb = first_builder
-    pairs = [(a, b) for a in PAIR_REACTIONS for b in PAIR_REACTIONS if a < b]
+    pairs = [(a, b) for a in PAIR_REACTIONS for b in PAIR_REACTIONS if a < b] + RELATED_PAIRS
     for r1, r2 in pairs:
         both_dpd = all(isinstance(infos[r]["dpd"].get(1), int) or isinstance(infos[r]["dpd"].get("1"), int) for r in (r1, r2))
         both_axis = all(isinstance(infos[r]["axis"], int) for r in (r1, r2))
         aligns = ([f"dpd:{rng.choice([1, 2, 3])}"] if both_dpd else []) + (["axis"] if both_axis else [])
+        if (r1, r2) in RELATED_PAIRS:
+            stats["scripted_related_pairs"] = stats.get("scripted_related_pairs", 0) + 1
         if not aligns:
             aligns = ["none"]
         for al in aligns:
@@ -621,9 +640,27 @@ class C06Property:
         t_world = time.time() - t0 - t_proof - t_probe
         for f in dict(R.memoised_functions()).values():
             f.cache_clear()  # the histories start from empty caches, like the model
-        chk.info("memoised_functions", [n for n, _ in R.memoised_functions()])
-        chk.info("module_level_containers", [m for m in R.module_level_mutables()
-                                             if not any(x in m for x in ("_explicit_class_assumptions", "_prop_handler", "default_assumptions", "PRECEDENCE"))])
+        memo_names = [n for n, _ in R.memoised_functions()]
+        containers = [m for m in R.module_level_mutables()
+                      if not any(x in m for x in ("_explicit_class_assumptions", "_prop_handler", "default_assumptions", "PRECEDENCE"))]
+        chk.info("memoised_functions", memo_names)
+        chk.info("module_level_containers", containers)
+        # CHECKED FACT: the process-global state of the package is exactly the set the model covers (the
+        # functools caches listed as CacheId in Model/C06Purity.lean, no module-/class-level dict, list or set).
+        # A new or replaced cache (e.g. a hand-written module-level memo) is state the model does not know about:
+        # broken correspondence, and every reference formulation then runs in its OWN fresh process so that a
+        # memo keyed too coarsely cannot contaminate the references the histories are compared with.
+        chk.coverage["obligations"] += 1
+        state_changed = memo_names != EXPECTED_MEMOISED or bool(containers)
+        if state_changed:
+            chk.broken_correspondence("process-global state set", {
+                "memoised_functions_missing": sorted(set(EXPECTED_MEMOISED) - set(memo_names)),
+                "memoised_functions_new": sorted(set(memo_names) - set(EXPECTED_MEMOISED)),
+                "module_level_containers": containers,
+                "meaning": "the state machine model (CacheId) no longer lists the package's process-global state"})
+            size = {**size, "own_process": 10 ** 6}
+        else:
+            chk.coverage["discharged"] += 1
         chk.info("reactions", {r: {k: v for k, v in infos[r].items()} for r in REACTIONS})
         segments = []
         for h in range(size["histories"]):
